@@ -448,7 +448,7 @@ func (k *APICase) runMigrate() (out [][2]string) {
 		}
 		lc := &linkedca.Claims{}
 		if x := blk(k.P2[0], k.P2[1], k.P2[2]); x != nil {
-			lc.X509 = &linkedca.X509Claims{Enabled: true, Durations: x}
+			lc.X509 = &linkedca.X509Claims{Enabled: !k.Reload || k.SSH, Durations: x} // the flag is left out by some clients
 		}
 		if k.SSH {
 			lc.Ssh = &linkedca.SSHClaims{Enabled: true, UserDurations: blk(k.P2[3], k.P2[4], k.P2[5]), HostDurations: blk(k.P2[6], k.P2[7], k.P2[8])}
@@ -615,6 +615,7 @@ func cornerAPI() []*Case {
 		{API: &APICase{Kind: "migrate"}},
 		{API: &APICase{Kind: "migrate", P: &ClaimSet{nil, p64(2 * hr)}, P2: &ClaimSet{nil, p64(36 * hr), p64(30 * hr)}, Reload: true}},
 		{API: &APICase{Kind: "migrate", P2: &ClaimSet{nil, p64(hr), p64(2 * hr)}}},
+		{API: &APICase{Kind: "migrate", P2: &ClaimSet{p64(10 * min), p64(2 * hr), p64(hr)}, Reload: true}},
 	}
 }
 
